@@ -5,7 +5,9 @@ from . import term as T
 
 VERIF = os.path.dirname(os.path.dirname(os.path.abspath(__file__)))
 KDIR = os.path.join(VERIF, 'k')
-TDIR = os.path.join(VERIF, '.work', 'ktn')
+REPO = os.environ.get('VERIF_REPO', '/repo')
+import hashlib
+TDIR = os.path.join(VERIF, '.work', 'ktn' if REPO == '/repo' else 'ktn_' + hashlib.sha1(REPO.encode()).hexdigest()[:8])
 _built = {}
 
 
@@ -13,6 +15,7 @@ def build(profile):
     if profile in _built: return _built[profile]
     env = dict(os.environ); env['CARGO_NET_OFFLINE'] = 'true'; env.pop('RUSTUP_TOOLCHAIN', None)
     cmd = ['cargo', 'build', '--offline', '--bin', 'mreplay', '--target-dir', TDIR]
+    if REPO != '/repo': cmd += ['--config', f'paths=["{REPO}/programs/whirlpool"]']
     if profile == 'release': cmd.append('--release')
     p = subprocess.run(cmd, cwd=KDIR, env=env, capture_output=True, text=True)
     exe = os.path.join(TDIR, profile if profile == 'release' else 'debug', 'mreplay')
@@ -34,6 +37,16 @@ def replay(o, log):
     if not rp or not o.model:
         return 'none', 'no replay recipe'
     env = dict(o.model)
+    if 'custom' in rp:
+        for n in T.DECLS:
+            env.setdefault(n, T.RANGES[n][0] or 0)
+        try:
+            v, info = rp['custom'](env)
+        except Exception as e:
+            return 'none', f'custom replay failed: {e}'
+        with open(log, 'a') as f:
+            f.write(o.key + '\n' + str(info) + '\n')
+        return v, info
     for n in T.DECLS:
         env.setdefault(n, T.RANGES[n][0] or 0)
     for n in T.BDECLS:
